@@ -127,7 +127,8 @@ def run_both(harness, optext, tag):
     library values printed by the implementation as `aux` lines);
     returns (impl_lines, model_lines, rc, stderr, rc_model, stderr_model)."""
     os.makedirs(CACHE, exist_ok=True)
-    path = os.path.join(CACHE, "ops_%s_%d.txt" % (tag, os.getpid()))
+    import threading
+    path = os.path.join(CACHE, "ops_%s_%d_%d.txt" % (tag, os.getpid(), threading.get_ident()))
     with open(path, "w") as f:
         f.write(optext)
     p = subprocess.run([harness, path], stdout=subprocess.PIPE, stderr=subprocess.PIPE, text=True,
